@@ -793,6 +793,11 @@ func (p *sshFxpOpenPacket) UnmarshalBinary(b []byte) error {
 		return err
 	}
 	p.Attrs = b
+	// The attributes are decoded lazily; make sure now that the flagged ones are all there,
+	// so that a truncated packet is rejected rather than acted upon.
+	if _, _, err := unmarshalFileStat(p.Flags, b); err != nil {
+		return err
+	}
 	return nil
 }
 
@@ -1002,7 +1007,11 @@ func (p *sshFxpMkdirPacket) UnmarshalBinary(b []byte) error {
 		return err
 	} else if p.Path, b, err = unmarshalStringSafe(b); err != nil {
 		return err
-	} else if p.Flags, _, err = unmarshalUint32Safe(b); err != nil {
+	} else if p.Flags, b, err = unmarshalUint32Safe(b); err != nil {
+		return err
+	}
+	// The attributes themselves are ignored, but a packet that lacks flagged attributes is malformed.
+	if _, _, err := unmarshalFileStat(p.Flags, b); err != nil {
 		return err
 	}
 	return nil
@@ -1093,6 +1102,11 @@ func (p *sshFxpSetstatPacket) UnmarshalBinary(b []byte) error {
 		return err
 	}
 	p.Attrs = b
+	// The attributes are decoded lazily; make sure now that the flagged ones are all there,
+	// so that a truncated packet is rejected rather than acted upon.
+	if _, _, err := unmarshalFileStat(p.Flags, b); err != nil {
+		return err
+	}
 	return nil
 }
 
@@ -1118,6 +1132,11 @@ func (p *sshFxpFsetstatPacket) UnmarshalBinary(b []byte) error {
 		return err
 	}
 	p.Attrs = b
+	// The attributes are decoded lazily; make sure now that the flagged ones are all there,
+	// so that a truncated packet is rejected rather than acted upon.
+	if _, _, err := unmarshalFileStat(p.Flags, b); err != nil {
+		return err
+	}
 	return nil
 }
 
